@@ -40,6 +40,7 @@ func (mltp MaskedLinearTransformationProtocol) ShallowCopy() MaskedLinearTransfo
 	return MaskedLinearTransformationProtocol{
 		e2s:          mltp.e2s.ShallowCopy(),
 		s2e:          mltp.s2e.ShallowCopy(),
+		noise:        mltp.noise,
 		prec:         mltp.prec,
 		defaultScale: mltp.defaultScale,
 		mask:         mask,
@@ -70,6 +71,7 @@ func (mltp MaskedLinearTransformationProtocol) WithParams(paramsOut ckks.Paramet
 	return MaskedLinearTransformationProtocol{
 		e2s:          mltp.e2s.ShallowCopy(),
 		s2e:          s2e,
+		noise:        mltp.noise,
 		prec:         mltp.prec,
 		defaultScale: defaultScale,
 		mask:         mask,
